@@ -532,6 +532,9 @@ func (db *MultiBucketBackend) PutObject(
 
 	if objectDir != "." {
 		if err := db.bucketFs.MkdirAll(objectDir, db.dirMode); err != nil {
+			// Refused part-way (a later segment is longer than a file name):
+			// the directories made up to there are not to stay behind either.
+			db.removeEmptyDirsLocked(bucketName, path.Dir(objectPath))
 			return result, err
 		}
 	}
@@ -639,6 +642,11 @@ func (db *MultiBucketBackend) deleteObjectLocked(bucketName, objectName string) 
 func (db *MultiBucketBackend) removeEmptyDirsLocked(bucketName, dir string) {
 	for strings.HasPrefix(dir, bucketName+"/") {
 		entries, err := afero.ReadDir(db.bucketFs, filepath.FromSlash(dir))
+		if notExist(err) {
+			// never made (MkdirAll was refused above it): look further up
+			dir = path.Dir(dir)
+			continue
+		}
 		if err != nil || len(entries) > 0 {
 			return
 		}
